@@ -5,7 +5,7 @@ import json
 from hypothesis import strategies as st
 from hypothesis.stateful import RuleBasedStateMachine, rule
 
-from ..runner import Violation, unexpected, digest
+from ..runner import Violation, unexpected, digest, guarded
 from ..ref import wire as W, b58, hashes as H
 from .. import libx, gen
 
@@ -328,9 +328,19 @@ class World:
                 for f in ('prev', 'root'):
                     blk[f] = bytes.fromhex(blk[f])
                 E = W.enc_block(blk)
-                self.reply('null'); self.call(method, p.submitblock, CBlock.deserialize(E))
-                if self.sent()['params'][0] != E.hex():
-                    raise Violation('object/submitblock-sent', 'block hex on the wire differs from the reference encoding')
+                if method == 'submitblock':
+                    self.reply('null'); self.call(method, p.submitblock, CBlock.deserialize(E))
+                    if self.sent()['params'][0] != E.hex():
+                        raise Violation('object/submitblock-sent', 'block hex on the wire differs from the reference encoding')
+                elif method == 'getblock':
+                    self.reply('"%s"' % E.hex()); r = self.call(method, p.getblock, b'\x06' * 32)
+                    if r.serialize() != E or [t.GetTxid() for t in r.vtx] != [W.txid(t) for t in blk['txs']]:
+                        raise Violation('object/getblock', 'returned block (%d transactions) differs from the served hex' % len(blk['txs']))
+                else:
+                    E80 = E[:80]
+                    self.reply('"%s"' % E80.hex()); r = self.call(method, p.getblockheader, b'\x06' * 32)
+                    if r.serialize() != E80 or r.GetHash() != H.dsha(E80):
+                        raise Violation('object/getblockheader', 'returned header differs from the served hex')
         elif k == 'error':
             method, shape, code = op[1], op[2], op[3]
             exp_code = code
@@ -431,9 +441,10 @@ s_op = st.one_of(
     st.tuples(st.just('send'), st.sampled_from(['sendtoaddress', 'sendmany']), amounts).map(list),
     st.tuples(st.just('get_hash'), hash_sources, hashes.map(bytes.hex)).map(list),
     st.tuples(st.just('use_hash'), hash_sinks, st.integers(0, 20)).map(list),
-    st.tuples(st.just('object'), st.sampled_from(['sendrawtransaction', 'signrawtransaction', 'signrawtransactionwithwallet', 'getrawtransaction']),
+    st.tuples(st.just('object'), st.sampled_from(['sendrawtransaction', 'signrawtransaction', 'signrawtransactionwithwallet', 'getrawtransaction',
+                                                 'fundrawtransaction']),
               gen.tx_model(max_in=3, max_out=3, big=False), st.booleans()).map(list),
-    st.tuples(st.just('object'), st.just('submitblock'),
+    st.tuples(st.just('object'), st.sampled_from(['submitblock', 'getblock', 'getblockheader']),
               st.fixed_dictionaries({'header': gen.header_model(), 'txs': st.lists(gen.tx_model(max_in=2, max_out=2, big=False), max_size=2)})).map(list),
     st.tuples(st.just('error'), err_methods, err_shapes, codes).map(list),
 )
@@ -450,7 +461,7 @@ def machine_factory(ctx):
         def step(self, op):
             self.ops.append(op)
             try:
-                self.w.apply(op)
+                guarded(self.w.apply, op)
             except Violation as v:
                 v.case = {'ops': list(self.ops)}
                 if ctx.should_raise(v, v.case):
